@@ -512,7 +512,7 @@ func (c19) Run(c *Case, st *Stats) []Violation {
 				ch := helper.JSONToChan[jsonRow](srcReader)
 				var got []jsonRow
 				for {
-					simrt.Yield(-1, "cons-recv")
+					consYield()
 					v, ok := <-ch
 					if !ok {
 						break
@@ -565,7 +565,7 @@ func (c19) Run(c *Case, st *Stats) []Violation {
 				}
 				var got []*asset.Snapshot
 				for {
-					simrt.Yield(-1, "cons-recv")
+					consYield()
 					v, ok := <-ch
 					if !ok {
 						break
@@ -606,7 +606,7 @@ func (c19) Run(c *Case, st *Stats) []Violation {
 					if err == nil {
 						var got []*asset.Snapshot
 						for {
-							simrt.Yield(-1, "cons-recv")
+							consYield()
 							v, ok := <-ch
 							if !ok {
 								break
@@ -626,7 +626,7 @@ func (c19) Run(c *Case, st *Stats) []Violation {
 				}
 				var got []*asset.Snapshot
 				for {
-					simrt.Yield(-1, "cons-recv")
+					consYield()
 					v, ok := <-ch
 					if !ok {
 						break
@@ -760,7 +760,7 @@ func csvCase[T any](c *Case, header bool, newReader func() *FragReader, src **Fr
 	ch := codec.ReadFromReader(*src)
 	var got []*T
 	for {
-		simrt.Yield(-1, "cons-recv")
+		consYield()
 		v, ok := <-ch
 		if !ok {
 			break
